@@ -146,6 +146,40 @@ theorem safe_containsRange (b : BStore) (hb : b.Inv) (s e : Nat) (hse : s ≤ e)
 
 theorem safe_toArray (b : BStore) (hb : b.Inv) : b.Safe_toArray := fun x hx => toArray_lt b hb x hx
 
+theorem safe_min (b : BStore) (hb : b.Inv) : b.Safe_min := by
+  unfold Safe_min
+  split
+  · rename_i w i h
+    have hp := List.find?_some h
+    have hm := List.mem_of_find?_eq_some h
+    rw [List.mem_zipIdx_iff_getElem?] at hm
+    simp only [bne_iff_ne, ne_eq] at hp
+    obtain ⟨hi, hwe⟩ := List.getElem?_eq_some_iff.1 hm
+    simp only [] at hi hwe
+    have hw : w < 2^64 := hb.words w (by rw [← hwe]; exact List.getElem_mem hi)
+    have := tz_lt w hp hw
+    rw [hb.length] at hi
+    show _ < 2^16
+    omega
+  · trivial
+
+theorem safe_max (b : BStore) (hb : b.Inv) : b.Safe_max := by
+  unfold Safe_max
+  split
+  · rename_i w i h
+    have hp := List.find?_some h
+    have hm := List.mem_of_find?_eq_some h
+    rw [List.mem_reverse, List.mem_zipIdx_iff_getElem?] at hm
+    simp only [bne_iff_ne, ne_eq] at hp
+    obtain ⟨hi, hwe⟩ := List.getElem?_eq_some_iff.1 hm
+    simp only [] at hi hwe
+    have hw : w < 2^64 := hb.words w (by rw [← hwe]; exact List.getElem_mem hi)
+    have := hiBit_lt w hp hw
+    rw [hb.length] at hi
+    refine ⟨hp, ?_⟩
+    show _ < 2^16
+    omega
+  · trivial
 theorem safe_rank (b : BStore) (hb : b.Inv) (i : Nat) (hi : i < 65536) : b.Safe_rank i := by
   have hk : i / 64 < b.bits.length := by rw [hb.length]; omega
   unfold Safe_rank wkey wbit
